@@ -611,7 +611,20 @@ func GenTreeOpt(seed uint64, maxPkgs, maxFuncs int, allowDep bool) Tree {
 			if fi == 0 {
 				for _, sh := range shared {
 					c := sh
-					c.Shape.Lit = sh.Shape.Lit + strings.Repeat("x", pi) // same structure, different literal
+					// same structure, different literal: package 1 gets a permutation of the
+					// same characters (same length, same entropy: alerts for the two
+					// functions tie on confidence and differ only in their details), package
+					// 2 a longer literal (different entropy, different confidence)
+					switch pi {
+					case 1:
+						b := []byte(sh.Shape.Lit)
+						if len(b) >= 2 {
+							b[len(b)-1], b[len(b)-2] = b[len(b)-2], b[len(b)-1]
+						}
+						c.Shape.Lit = string(b)
+					case 2:
+						c.Shape.Lit = sh.Shape.Lit + "xx"
+					}
 					fs = append(fs, c)
 				}
 			}
